@@ -538,6 +538,61 @@ def r9(ctx):
     else:
         ctx.ok(rule, "bit_string_copy_bulked#dst-coordinates", detail)
 
+def r10(ctx):
+    rule = "C11.R10"
+    ctx.rule(rule, "an error, not a panic, for positions beyond the buffer: in bit_string_copy and bit_string_copy_bulked (private helpers "
+                   "expanded) no overflow-checked subtraction of two non-constant values runs before both length checks have passed - "
+                   "`8 * buf.len() - bit_position` underflows for a cursor that already lies behind the buffer, exactly the input the "
+                   "checks exist to refuse (the saturating / checked forms and the sum form `position + len` do not)")
+    P = ctx.program()
+    n = 0
+    for fn in ("slice::bit_string_copy", "slice::bit_string_copy_bulked"):
+        b = one(ctx, rule, fn)
+        if b is None:
+            continue
+        O = X.Origins(b, P)
+        checks = [c for c in F.comparisons(b, O) if c.validating and c.switch_bb is not None and "slice::len" in (c.lhs + c.rhs)]
+        if len(checks) < 2:
+            via = delegated_checks(P, b)
+            if via:
+                ctx.ok(rule, fn.split("::")[-1], {"function": b.path, "checked_by": sorted(h for _, h in via.values())}, nontrivial=False)
+                n += 1
+                continue
+            ctx.fail(rule, fn.split("::")[-1] + "#anchor-lost:length-checks", "%d validating length comparisons found" % len(checks),
+                     "%s:%d" % (b.file, b.line))
+            continue
+        n += 1
+        okb = F.ok_reaching(b)
+        passed = None
+        for c in checks:
+            ok_succ = [s_ for s_ in b.succ[c.switch_bb] if s_ in okb]
+            after = set()
+            for s_ in ok_succ:
+                if not all(x in okb for x in b.succ[c.switch_bb]) or True:
+                    after |= b.reach_from(s_)
+            # only the side on which the check passed
+            err_succ = [s_ for s_ in b.succ[c.switch_bb] if s_ not in ok_succ]
+            if err_succ:
+                after = set()
+                for s_ in ok_succ:
+                    after |= b.reach_from(s_, avoid=err_succ)
+            passed = after if passed is None else (passed & after)
+        bad = []
+        for bb, t in b.asserts():
+            m = t["msg"]
+            if m.get("k") == "Overflow" and m.get("op") == "Sub" and all(o.get("k") != "const" for o in m.get("ops", [])):
+                if bb not in (passed or set()):
+                    bad.append(span_loc(t["sp"]))
+        detail = {"function": b.path, "length_checks": [c.raw[:100] for c in checks], "early_subtractions": bad}
+        if bad:
+            ctx.fail(rule, fn.split("::")[-1] + "#subtraction-before-checks", "an overflow-checked subtraction of two variable values at %s runs "
+                                                                              "before the length checks have passed: a position beyond the "
+                                                                              "buffer panics instead of returning the error" % bad[0], bad[0], detail)
+        else:
+            ctx.ok(rule, fn.split("::")[-1], detail)
+    ctx.floor(rule, n, "C11.R10.functions")
+
+
 def run(ctx):
     r1(ctx)
     r2(ctx)
@@ -548,3 +603,4 @@ def run(ctx):
     r7(ctx)
     r8(ctx)
     r9(ctx)
+    r10(ctx)
